@@ -7,7 +7,7 @@
    a token is in first(x) iff some string derived from x starts with it, and the empty-word
    marker is in first(x) iff x derives the empty string. *)
 From Coq Require Import List Arith.
-From LV Require Import Sema FirstSpec FirstComplete FirstSound FirstCert.
+From LV Require Import Sema FirstSpec FirstComplete FirstSound FirstCert PredictSpec FollowSpec FollowSound FollowCert.
 
 Theorem C09_first_sets_exact :
   forall g fuel m,
@@ -26,5 +26,29 @@ Theorem C09_first_sets_sound :
     /\ (mem Eps (get m (rid_of x)) = true -> Nullable_spec g x).
 Proof. exact first_sound. Qed.
 
+(* follow sets (tokens; the empty-word marker in follow sets is ignored, as the property says):
+   for every grammar with unique node ids and every first-set map fi, if the transcription of
+   LL1Validator::calc_follow terminates with a map that satisfies the follow inclusions
+   ([fol_closed], evaluated on every grammar of the K2 correspondence), a token is in follow(y)
+   iff the textbook rules [Fol] (end markers of the start rule and of parts; what can start the
+   rest of a sequence; the follow of the enclosing construct when the rest is nullable; the first
+   set of a loop body after itself; rule references pass their follow to the rule body) derive it. *)
+Theorem C09_follow_sets_exact :
+  forall g fi fuel fo lf,
+  wf_ids_b g = true ->
+  calc_follow g fi fuel = Some (fo, lf) ->
+  fol_closed g fi fo = true ->
+  forall y a, In y (nodes_of g) -> (mem (T a) (get fo (rid_of y)) = true <-> Fol g fi y a).
+Proof. exact follow_exact. Qed.
+
+(* predict is first, extended by follow when the node is nullable (the empty-word marker is dropped) *)
+Theorem C09_predict_is_first_extended_by_follow :
+  forall fi fo k s,
+  mem s (get (calc_predict fi fo) k) = true <->
+  (s <> Eps /\ mem s (get fi k) = true) \/ (mem Eps (get fi k) = true /\ mem s (get fo k) = true).
+Proof. exact predict_spec. Qed.
+
 Print Assumptions C09_first_sets_exact.
 Print Assumptions C09_first_sets_sound.
+Print Assumptions C09_predict_is_first_extended_by_follow.
+Print Assumptions C09_follow_sets_exact.
